@@ -15,3 +15,9 @@ Fixpoint upd_nat (l : list Z) (i : nat) (v : Z) : list Z :=
   end.
 
 Definition go_upd (l : list Z) (i v : Z) : list Z := if i <? 0 then l else upd_nat l (Z.to_nat i) v.
+
+(* copy(dst[dl:dh], src[sl:sh]): min(dh-dl, sh-sl) elements, the rest of dst unchanged (the slices the kernels
+   copy between never overlap: source and destination are different arrays) *)
+Definition go_copy (dst : list Z) (dl dh : Z) (src : list Z) (sl sh : Z) : list Z :=
+  let n := Z.to_nat (Z.min (dh - dl) (sh - sl)) in
+  firstn (Z.to_nat dl) dst ++ firstn n (skipn (Z.to_nat sl) src) ++ skipn (Z.to_nat dl + n) dst.
